@@ -205,7 +205,7 @@ Definition series_bodies (fx : bool) (k : kind) (name : str) (unit : option unit
       ++ [metric_line_body fx name (Some (lit "sum")) labels None (s_sum s) unit;
           metric_line_body fx name (Some (lit "count")) labels None (s_count s) unit]
   | KHistogram =>
-      map (fun lc => metric_line_body fx name (Some (lit "bucket")) labels (Some (lit "le", fst lc)) (snd lc) unit) (s_points s)
+      map (fun lc => metric_line_body fx name (Some (lit "bucket")) labels (Some (lit "le", fst lc)) (snd lc) unit) (s_buckets s)
       ++ [metric_line_body fx name (Some (lit "bucket")) labels (Some (lit "le", lit "+Inf")) (s_count s) unit;
           metric_line_body fx name (Some (lit "sum")) labels None (s_sum s) unit;
           metric_line_body fx name (Some (lit "count")) labels None (s_count s) unit]
@@ -223,16 +223,16 @@ Proof.
   - rewrite tl_app, tl_map. unfold tl. simpl. now rewrite app_nil_r, <- !app_assoc.
 Qed.
 
-Definition family_bodies (fx on : bool) (g : list (str * str)) (f : family) : list str :=
+Definition family_bodies (fx on gb : bool) (ovs : list matcher) (g : list (str * str)) (f : family) : list str :=
   (match f_desc f with
    | Some (d, _) => [lit "# HELP " ++ header_name fx on f ++ [32] ++ sanitize_description d]
    | None => []
    end)
-  ++ [lit "# TYPE " ++ header_name fx on f ++ [32] ++ type_word (f_kind f)]
-  ++ flat_map (series_bodies fx (f_kind f) (sanitize_metric_name (f_name f)) (eff_unit on f) g) (f_series f)
+  ++ [lit "# TYPE " ++ header_name fx on f ++ [32] ++ type_word (type_kind gb ovs f)]
+  ++ flat_map (series_bodies fx (emit_kind gb ovs f) (sanitize_metric_name (f_name f)) (eff_unit on f) g) (f_series f)
   ++ [[]].
 
-Lemma render_family_tl fx on g f : render_family fx on g f = tl (family_bodies fx on g f).
+Lemma render_family_tl fx on gb ovs g f : render_family fx on gb ovs g f = tl (family_bodies fx on gb ovs g f).
 Proof.
   unfold render_family, family_bodies, write_help_line, write_type_line.
   rewrite !tl_app. f_equal.
@@ -243,7 +243,7 @@ Proof.
 Qed.
 
 Lemma render_text_tl fx rc :
-  render_text fx rc = tl (flat_map (family_bodies fx (unit_on rc) (globals rc)) (fams rc)).
+  render_text fx rc = tl (flat_map (family_bodies fx (unit_on rc) (gbuckets rc) (overrides rc) (globals rc)) (fams rc)).
 Proof.
   unfold render_text, tl. rewrite flat_map_flat_map. apply flat_map_ext'. intros f. apply render_family_tl.
 Qed.
@@ -262,28 +262,48 @@ Proof.
   - rewrite app_length, map_length. reflexivity.
 Qed.
 
-Lemma good_series k sname unit g s :
-  mname sname -> keys_ok g -> wf_series k s = true ->
+(* the TYPE line and the emitted samples are chosen by the same predicate of the base name, for
+   every set of overrides and with or without global buckets *)
+Lemma emit_kind_type_kind gb ovs f : emit_kind gb ovs f = type_kind gb ovs f.
+Proof. unfold emit_kind, type_kind, dist_emit_hist, dist_type_hist. now rewrite orb_comm. Qed.
+
+Definition compat (fk : fkind) (k : kind) : Prop :=
+  match fk, k with
+  | FCounter, KCounter | FGauge, KGauge | FDist, KSummary | FDist, KHistogram => True
+  | _, _ => False
+  end.
+
+Lemma type_kind_compat gb ovs f : compat (f_kind f) (type_kind gb ovs f).
+Proof. unfold type_kind. destruct (f_kind f); simpl; auto. destruct (dist_type_hist _ _ _); simpl; auto. Qed.
+
+Lemma good_points sname unit kvs sfx nm pts ty :
+  mname sname -> keys_ok kvs -> lname nm -> points_ok pts = true -> sfx_allowed ty sfx ->
+  Forall (good_sample (sname ++ unit_suffix unit) ty)
+    (map (fun p => metric_line_body true sname sfx (map label_string kvs) (Some (nm, fst p)) (snd p) unit) pts).
+Proof.
+  intros Hn Hk Hnm Hp Hs. apply Forall_forall. intros l Hin. apply in_map_iff in Hin as (qv & <- & Hin).
+  unfold points_ok in Hp. rewrite forallb_forall in Hp. specialize (Hp _ Hin). apply andb_prop in Hp as [Hq Hv].
+  apply good_line; simpl; auto.
+Qed.
+
+Lemma good_series fk k sname unit g s :
+  mname sname -> keys_ok g -> wf_series fk s = true -> compat fk k ->
   Forall (good_sample (sname ++ unit_suffix unit) (kind_mtype k)) (series_bodies true k sname unit g s).
 Proof.
-  intros Hn Hg Hw. unfold wf_series in Hw. apply andb_prop in Hw as [Hl Hw].
+  intros Hn Hg Hw Hc. unfold wf_series in Hw. apply andb_prop in Hw as [Hl Hw].
   assert (Hk : keys_ok (imap_of (g ++ s_labels s))).
   { apply keys_ok_imap. apply Forall_app. split; auto. now apply keys_nonempty_ok. }
   unfold series_bodies, key_labels. cbn zeta.
-  destruct k.
+  destruct fk, k; simpl in Hc; try contradiction.
   - apply Forall_cons; [apply good_line; simpl; auto|apply Forall_nil].
   - apply Forall_cons; [apply good_line; simpl; auto|apply Forall_nil].
-  - apply andb_prop in Hw as [Hw Hc]. apply andb_prop in Hw as [Hp Hs].
+  - apply andb_prop in Hw as [Hw Hcnt]. apply andb_prop in Hw as [Hw Hs]. apply andb_prop in Hw as [Hp Hb].
     apply Forall_app. split.
-    + apply Forall_forall. intros l Hin. apply in_map_iff in Hin as (qv & <- & Hin).
-      rewrite forallb_forall in Hp. specialize (Hp _ Hin). apply andb_prop in Hp as [Hq Hv].
-      apply good_line; simpl; auto. split; [apply lname_lit_quantile|exact Hq].
+    + apply good_points; simpl; auto. apply lname_lit_quantile.
     + repeat (apply Forall_cons; [apply good_line; simpl; auto|]). apply Forall_nil.
-  - apply andb_prop in Hw as [Hw Hc]. apply andb_prop in Hw as [Hp Hs].
+  - apply andb_prop in Hw as [Hw Hcnt]. apply andb_prop in Hw as [Hw Hs]. apply andb_prop in Hw as [Hp Hb].
     apply Forall_app. split.
-    + apply Forall_forall. intros l Hin. apply in_map_iff in Hin as (qv & <- & Hin).
-      rewrite forallb_forall in Hp. specialize (Hp _ Hin). apply andb_prop in Hp as [Hq Hv].
-      apply good_line; simpl; auto. split; [apply lname_lit_le|exact Hq].
+    + apply good_points; simpl; auto. apply lname_lit_le.
     + apply Forall_cons; [apply good_line; simpl; auto; split; [apply lname_lit_le|reflexivity]|].
       repeat (apply Forall_cons; [apply good_line; simpl; auto|]). apply Forall_nil.
 Qed.
@@ -296,37 +316,38 @@ Proof. intros H. unfold header_name. apply mname_app; [now apply mname_sanitized
 Lemma wf_family_name f : wf_family f = true -> f_name f <> [].
 Proof. unfold wf_family, nonempty. intros H. apply andb_prop in H as [H _]. destruct (f_name f); [discriminate|congruence]. Qed.
 
-Lemma family_parsed on g f : keys_ok g -> wf_family f = true ->
-  Forall nolf (family_bodies true on g f) /\
+Lemma family_parsed on gb ovs g f : keys_ok g -> wf_family f = true ->
+  Forall nolf (family_bodies true on gb ovs g f) /\
   exists hs ss,
-    parse_lines (family_bodies true on g f)
-    = Some (hs ++ [LType (header_name true on f) (kind_mtype (f_kind f))] ++ ss ++ [LBlank])
+    parse_lines (family_bodies true on gb ovs g f)
+    = Some (hs ++ [LType (header_name true on f) (kind_mtype (type_kind gb ovs f))] ++ ss ++ [LBlank])
     /\ ((hs = [] /\ has_desc f = false) \/ (exists d, hs = [LHelp (header_name true on f) d] /\ has_desc f = true))
-    /\ Forall (in_fam (header_name true on f) (kind_mtype (f_kind f))) ss
-    /\ List.length (filter is_sample ss) = sum_nat (map (series_lines (f_kind f)) (f_series f))
+    /\ Forall (in_fam (header_name true on f) (kind_mtype (type_kind gb ovs f))) ss
+    /\ List.length (filter is_sample ss) = sum_nat (map (series_lines (type_kind gb ovs f)) (f_series f))
     /\ filter is_type ss = [] /\ filter is_help ss = [] /\ filter is_blank ss = [].
 Proof.
   intros Hg Hw. pose proof (wf_family_name f Hw) as Hne.
+  unfold family_bodies. rewrite emit_kind_type_kind.
   pose proof (header_mname on f Hne) as Hh.
   unfold wf_family in Hw. apply andb_prop in Hw as [_ Hs].
-  set (bodies := flat_map (series_bodies true (f_kind f) (sanitize_metric_name (f_name f)) (eff_unit on f) g) (f_series f)).
-  assert (Hgood : Forall (good_sample (header_name true on f) (kind_mtype (f_kind f))) bodies).
+  set (bodies := flat_map (series_bodies true (type_kind gb ovs f) (sanitize_metric_name (f_name f)) (eff_unit on f) g) (f_series f)).
+  assert (Hgood : Forall (good_sample (header_name true on f) (kind_mtype (type_kind gb ovs f))) bodies).
   { apply Forall_flat_map'. intros s Hin. rewrite forallb_forall in Hs.
-    apply good_series; auto. now apply mname_sanitized. }
+    apply (good_series (f_kind f)); auto; [now apply mname_sanitized|apply type_kind_compat]. }
   destruct (parse_good _ _ _ Hgood) as (ss & Ess & Hin & _ & Hc & H1 & H2 & H3).
-  assert (Hlen : List.length bodies = sum_nat (map (series_lines (f_kind f)) (f_series f))).
+  assert (Hlen : List.length bodies = sum_nat (map (series_lines (type_kind gb ovs f)) (f_series f))).
   { unfold bodies. clear. induction (f_series f) as [|s l IH]; [reflexivity|].
     cbn [flat_map map sum_nat]. now rewrite app_length, series_bodies_length, IH. }
-  assert (Hty : parse_lines [lit "# TYPE " ++ header_name true on f ++ [32] ++ type_word (f_kind f)]
-                = Some [LType (header_name true on f) (kind_mtype (f_kind f))]).
+  assert (Hty : parse_lines [lit "# TYPE " ++ header_name true on f ++ [32] ++ type_word (type_kind gb ovs f)]
+                = Some [LType (header_name true on f) (kind_mtype (type_kind gb ovs f))]).
   { cbn [parse_lines]. now rewrite type_line_roundtrip. }
   assert (Hbl : parse_lines [@nil N] = Some [LBlank]) by reflexivity.
-  assert (Hnl_ty : nolf (lit "# TYPE " ++ header_name true on f ++ [32] ++ type_word (f_kind f))).
+  assert (Hnl_ty : nolf (lit "# TYPE " ++ header_name true on f ++ [32] ++ type_word (type_kind gb ovs f))).
   { apply nolf_app; [nolf_lit|]. apply nolf_app; [now apply nolf_mname|]. apply nolf_app; [nolf_lit|].
-    destruct (f_kind f); nolf_lit. }
+    destruct (type_kind gb ovs f); nolf_lit. }
   assert (Hnl_b : Forall nolf bodies).
   { eapply Forall_impl; [|exact Hgood]. intros l [Hl _]. exact Hl. }
-  unfold family_bodies. fold bodies. split.
+  split.
   - apply Forall_app. split.
     + destruct (f_desc f) as [[d u]|]; constructor; [|constructor].
       apply nolf_app; [nolf_lit|]. apply nolf_app; [now apply nolf_mname|]. apply nolf_app; [nolf_lit|].
@@ -370,25 +391,25 @@ Lemma text_eqb_sym a : forall b, text_eqb a b = text_eqb b a.
 Proof. induction a; destruct b; simpl; auto; try now rewrite IHa, N.eqb_sym. Qed.
 
 (* ---- all families *)
-Lemma render_families on g fs : keys_ok g -> forallb wf_family fs = true ->
+Lemma render_families on gb ovs g fs : keys_ok g -> forallb wf_family fs = true ->
   nodup_b (map (header_name true on) fs) = true ->
   forall s, pend s = None ->
     (forall f, In f fs -> mem (header_name true on f) (typed s) = false) ->
-  Forall nolf (flat_map (family_bodies true on g) fs) /\
-  exists pl s', parse_lines (flat_map (family_bodies true on g) fs) = Some pl
+  Forall nolf (flat_map (family_bodies true on gb ovs g) fs) /\
+  exists pl s', parse_lines (flat_map (family_bodies true on gb ovs g) fs) = Some pl
     /\ frun s pl = Some s' /\ pend s' = None
     /\ List.length (filter is_type pl) = List.length fs
     /\ List.length (filter is_blank pl) = List.length fs
     /\ List.length (filter is_help pl) = List.length (filter has_desc fs)
     /\ List.length (filter is_sample pl)
-       = sum_nat (map (fun f => sum_nat (map (series_lines (f_kind f)) (f_series f))) fs).
+       = sum_nat (map (fun f => sum_nat (map (series_lines (type_kind gb ovs f)) (f_series f))) fs).
 Proof.
   intros Hg. induction fs as [|f fs IH]; intros Hw Hnd s Hp Hm.
   - split; [constructor|]. exists [], s. simpl. repeat split; auto.
   - simpl in Hw. apply andb_prop in Hw as [Hwf Hw].
     cbn [map nodup_b] in Hnd. apply andb_prop in Hnd as [Hnew Hnd].
-    destruct (family_parsed on g f Hg Hwf) as (Hnl & hs & ss & Ep & Hhs & Hss & Hc & H1 & H2 & H3).
-    set (hn := header_name true on f) in *. set (ty := kind_mtype (f_kind f)) in *.
+    destruct (family_parsed on gb ovs g f Hg Hwf) as (Hnl & hs & ss & Ep & Hhs & Hss & Hc & H1 & H2 & H3).
+    set (hn := header_name true on f) in *. set (ty := kind_mtype (type_kind gb ovs f)) in *.
     set (s1 := {| cur := Some (hn, ty); typed := hn :: typed s; pend := None |}).
     assert (Hrun : frun s (hs ++ [LType hn ty] ++ ss ++ [LBlank]) = Some s1).
     { apply frun_family; auto.
@@ -427,7 +448,7 @@ Theorem render_spec rc : wf_rcase rc = true ->
 Proof.
   unfold wf_rcase. intros H. apply andb_prop in H as [H Hnd]. apply andb_prop in H as [H _].
   apply andb_prop in H as [Hg Hw]. apply keys_nonempty_ok in Hg.
-  destruct (render_families (unit_on rc) (globals rc) (fams rc) Hg Hw Hnd fstart eq_refl)
+  destruct (render_families (unit_on rc) (gbuckets rc) (overrides rc) (globals rc) (fams rc) Hg Hw Hnd fstart eq_refl)
     as (Hnl & pl & s' & Ep & Hr & Hp & C1 & C2 & C3 & C4); [reflexivity|].
   exists pl. rewrite render_text_tl, parse_text_tl by auto.
   split; [exact Ep|]. split; [unfold family_ok; now rewrite Hr, Hp|].
